@@ -49,7 +49,7 @@ StairSteps(n, k) == IF k > n THEN <<>> ELSE << <<n - k + 1, k>>, <<n - k, k>> >>
 Lobe(n) == << <<n, 0>> >> \o StairSteps(n, 1)                         \* without the origin
 Neg(cs) == [i \in DOMAIN cs |-> <<0 - cs[i][1], 0 - cs[i][2]>>]
 FigureEight(n) == << <<0, 0>> >> \o Lobe(n) \o << <<0, 0>> >> \o Neg(Lobe(n)) \o << <<0, 0>> >>
-BigRings == << Comb(24, 0), Comb(24, 11), Comb(50, 0), Comb(50, 17), Comb(50, 49), Comb(98, 0), Comb(98, 33), Comb(300, 0), Comb(300, 151),
+BigRings == << Comb(24, 0), Comb(24, 11), Comb(50, 0), Comb(50, 17), Comb(50, 49), Comb(98, 0), Comb(98, 33), Comb(300, 0), Comb(300, 151), Comb(1030, 0), Comb(1030, 515),
                FigureEight(12), FigureEight(20), FigureEight(40), FigureEight(130) >>
 \* ---------------- Mode "rings": state = open octilinear walk (need not be simple)
 VARIABLES walk, h1, h2, done
@@ -126,6 +126,6 @@ NextMulti ==
     /\ PrintT(<<"CASE", ToJson(MultiCase(h1, h2'))>>)
 Next == NextRings \/ NextHoles \/ NextMulti \/ NextBig
 \* the construction says which of the big rings are simple
-BigRingsAsBuilt == Mode = "bigrings" => (RingOK(BigRings[h1]) <=> h1 \in {1, 3, 6, 8})
+BigRingsAsBuilt == Mode = "bigrings" => (RingOK(BigRings[h1]) <=> h1 \in {1, 3, 6, 8, 10})
 Spec == Init /\ [][Next]_vars
 =============================================================================
